@@ -390,6 +390,9 @@ func main() {
 	ctx.Jobs("big-and-many", 2, func(j int) { bigAndMany(j) })
 	ctx.Jobs("value-sweeps", 8, func(j int) { valueSweeps(j, 8) })
 	ctx.Jobs("two-readers", 1, func(int) { twoReaders() })
+	if !ctx.IsChild() {
+		ctx.RacePairs("smf-read")
+	}
 	ctx.Sample(map[string]interface{}{"file": "MThd fmt1 2 tracks div 96 | XFIH(5) | MTrk: 0:NoteOn0 128:NoteOn0~ 0:EOT | MTrk filler", "meaning": "alien chunk before the first track, running status"})
 	ctx.Set("token_alphabet", len(tokens))
 	ctx.Set("delta_encodings", len(deltas))
